@@ -202,6 +202,8 @@ func LoadWorld(repo string, specDirs []string) (*World, error) {
 		w.protectedFields["F:tree.node."+f] = true
 	}
 	w.protectedFields["F:tree.Tree.methods"] = true
+	w.protectedFields["F:tree.Tree.trace"] = true    // rewritten by ApplyMiddleware (Use)
+	w.protectedFields["F:tree.Tree.notFound"] = true // rewritten by ApplyMiddleware (Use)
 	w.immutableFields = map[string]bool{"F:tree.node.pattern": true}
 	return w, nil
 }
